@@ -5,6 +5,7 @@ Only public API of the library is used.  What is read of CPython's asyncio (the 
 handle is bound to) belongs to the interpreter, which is in the trusted base (DESIGN §2, §7)."""
 import asyncio
 import functools
+import inspect
 import logging
 import math
 import re
@@ -34,6 +35,9 @@ def parse_hooks(s):
     return out
 
 
+EMPTY = object()          # the worker was called without any argument: an empty element of starmap / doublestarmap
+
+
 def canon_arg(x, k, s):
     if x == 7 and k == 1 and s is None:
         return "a"
@@ -46,6 +50,17 @@ def canon_arg(x, k, s):
     return "?" + re.sub(r"[^0-9A-Za-z]", "_", repr((x, k, s)))
 
 
+class CallableObject(list):
+    """a callback that is a callable *object* — and, being a list, not hashable"""
+
+    def __init__(self, f):
+        super().__init__()
+        self.f = f
+
+    def __call__(self, *a, **kw):
+        return self.f(*a, **kw)
+
+
 class PoolCtx:
     """one real pool and everything the harness owns around it"""
 
@@ -56,6 +71,7 @@ class PoolCtx:
         self.size = size            # configured size: int or "inf"
         self.ev = []                # event log since the last observation
         self.futs = {}              # task id -> harness future the task is suspended on
+        self.cur_idx = {}           # request number -> index of the element its argument iterator handed out last
         self.names = []             # every group name ever returned, in order
         self.apis = []              # asyncio tasks running flush / gather_and_close / until_closed
         self.nreq = 0               # accepted spawn requests so far
@@ -161,19 +177,24 @@ class ImplWorld:
             return "noop"       # stop / apply on the wrong pool class
         return "noop"
 
-    def mkworker(self, ctx, mode, swallow, hooks_start, holder, coro=True):
+    def mkworker(self, ctx, mode, swallow, hooks_start, holder, coro=True, hint=None):
+        """`hint` = (request number, stars) for a map request with *empty* elements: the worker is then called without
+        any argument and learns the element's index from the iterator (which ran just before the call)"""
         W = self
         if not coro:
             def worker(x, k=0, *, s=None):      # not a coroutine function
                 return None
             return worker
 
-        async def worker(x, k=0, *, s=None):
+        async def worker(x=EMPTY, k=0, *, s=None, _idx=None):
             tid, name = W.tid_of_current(ctx)
             if tid is None:
                 ctx.ev.append("S?" + re.sub(r"[^0-9A-Za-z]", "_", name))
                 return None
-            ctx.ev.append(f"S{tid}({canon_arg(x, k, s)})")
+            if x is EMPTY and hint is not None:
+                ctx.ev.append(f"S{tid}({'*' * hint[1]}{_idx})")
+            else:
+                ctx.ev.append(f"S{tid}({canon_arg(x, k, s)})")
             ctx.live.add(tid)
             ctx.note_live()
             # every other task *returns* an exception instance (errors as values): a value like any other
@@ -203,6 +224,14 @@ class ImplWorld:
                 return val
             finally:
                 ctx.live.discard(tid)
+        if hint is not None:
+            # a plain function that returns the coroutine, marked as a coroutine function (inspect.markcoroutinefunction):
+            # its synchronous part runs when the pool *calls* func, i.e. right after the element was pulled
+            def entry(*a, **kw):
+                return worker(*a, _idx=ctx.cur_idx.get(hint[0]), **kw)
+            entry.__name__ = "worker"
+            entry.__qualname__ = worker.__qualname__
+            return inspect.markcoroutinefunction(entry)
         # every other worker function is handed to the pool as a `functools.partial` object: a coroutine function as far
         # as asyncio is concerned, but a callable without `__name__`
         ctx.nworkers = getattr(ctx, "nworkers", 0) + 1
@@ -232,17 +261,29 @@ class ImplWorld:
             ctx.ev.append(f"{pre}c{tag}{tid}:{p.num_running}/{p.num_cancelled}/{p.num_ended}/{reg}")
             W.run_hooks(ctx, hooks, holder)
 
+        # callbacks come in the shapes a user may hand over: a function, a `functools.partial` of one, a callable object
+        # (which need not be hashable); coroutine callbacks: a coroutine function or a partial of one
+        ctx.ncbs = getattr(ctx, "ncbs", 0) + 1
+        shape = ctx.ncbs % 3
+
+        def dress(f):
+            if shape == 1:
+                return functools.partial(f)
+            if shape == 2:
+                return CallableObject(f)
+            return f
+
         if spec == "p":
             def cb(tid):
                 begin(tid)
                 ctx.ev.append(f"{pre}d{tid}")
-            return cb
+            return dress(cb)
         if spec == "x":
             def cb(tid):
                 begin(tid)
                 ctx.ev.append(f"{pre}r{tid}")
                 raise Boom("cb")
-            return cb
+            return dress(cb)
 
         async def cb(tid):
             begin(tid)
@@ -257,7 +298,7 @@ class ImplWorld:
                 ctx.ev.append(f"{pre}r{tid}")
                 raise
             ctx.ev.append(f"{pre}d{tid}")
-        return cb
+        return functools.partial(cb) if shape == 1 else cb
 
     def new_task_handles(self, ctx, before):
         """the pool tasks whose wake-up handles a cancel_group/cancel_all call queued, in order (DESIGN §3.5)"""
@@ -342,14 +383,19 @@ class ImplWorld:
                 m = ctx.nreq
                 hk = parse_hooks(hooks)
                 holder = {"g": None}
-                f = self.mkworker(ctx, wm, sw == "1", hk["s"], holder, coro == "1")
                 its = "" if items == "-" else items
+                f = self.mkworker(ctx, wm, sw == "1", hk["s"], holder, coro == "1",
+                                  hint=(m, stars) if "3" in its and stars else None)
                 W = self
 
                 def gen():
                     for i, c in enumerate(its):
                         ctx.ev.append(f"P{m}:{i}")
                         W.run_hooks(ctx, hk["p"], holder)
+                        ctx.cur_idx[m] = i
+                        if c == "3" and stars:
+                            yield () if stars == 1 else {}      # an empty element: func() is what the variant prescribes
+                            continue
                         if c == "2":
                             raise Boom("the argument iterator raises instead of yielding")
                         if c == "1":
